@@ -49,7 +49,7 @@ async fn drain(mut rx: chmux::Receiver, accept: bool) -> usize {
 
 pub fn run_one(run: u64, seed: u64) -> RunOut {
     let mut rng = Rng::new(seed);
-    let variant = rng.below(3);
+    let variant = rng.below(4);
     let mut cfg_a = small_cfg(&mut rng, None);
     let mut cfg_b = small_cfg(&mut rng, None);
     if variant == 0 {
@@ -57,7 +57,7 @@ pub fn run_one(run: u64, seed: u64) -> RunOut {
         cfg_a.max_ports = 64;
         cfg_b.max_ports = 64;
     }
-    if variant == 1 {
+    if variant == 1 || variant == 3 {
         for c in [&mut cfg_a, &mut cfg_b] {
             c.shared_send_queue = 1;
             c.transport_send_queue = 1;
@@ -69,7 +69,7 @@ pub fn run_one(run: u64, seed: u64) -> RunOut {
     let k_ports = 1 + rng.usize_below(6);
     let pre_len = rng.usize_below(8);
     let n_msgs = 2 + rng.usize_below(10);
-    let vname = ["connect-leftover", "port-blocking", "exhaust-cancel"][variant as usize];
+    let vname = ["connect-leftover", "port-blocking", "exhaust-cancel", "recv-cancel-under-pressure"][variant as usize];
     let replay = json!({"run": run, "seed": seed, "variant": vname,
         "cfg_a": cfg_json(&cfg_a), "cfg_b": cfg_json(&cfg_b), "net": netcfg_class(&netcfg), "h1_pct": h1,
         "k_ports": k_ports, "pre_len": pre_len, "n_msgs": n_msgs});
@@ -172,6 +172,76 @@ pub fn run_one(run: u64, seed: u64) -> RunOut {
                 }
                 drop(xs);
             }
+            3 => {
+                // Port X carries data A>B; B's receiver consumes it with receive calls that are dropped after a few
+                // polls, while B's own event queue is full (port Z floods B>A behind a starved B>A direction), so
+                // that B's flow-credit returns have to wait for queue space exactly when a receive is cancelled.
+                let ((mut tx_ax, _rx_ax), (_tx_bx, mut rx_bx)) = open_port(&a.client, &mut b.listener).await?;
+                let ((_tx_az, rx_az), (mut tx_bz, _rx_bz)) = open_port(&a.client, &mut b.listener).await?;
+                net.set_starved(Dir::BA, true);
+                let n_flood = 3 + rng.usize_below(12);
+                let flood = crate::sched::spawn(async move {
+                    for i in 0..n_flood {
+                        if tx_bz.send(Bytes::from(payload(900 + i as u64, 1 + i % 3))).await.is_err() {
+                            break;
+                        }
+                    }
+                    tx_bz
+                });
+                let za = crate::sched::spawn(drain(rx_az, false));
+                let n = n_msgs + 2;
+                let len = (cfg_b.receive_buffer as usize / 3 + 1).max(1);
+                let xs = crate::sched::spawn(async move {
+                    for i in 0..n {
+                        if tx_ax.send(Bytes::from(payload(i as u64, len))).await.is_err() {
+                            return false;
+                        }
+                    }
+                    true
+                });
+                let mut crng = rng.fork(11);
+                let mut cancels_left = 2 + crng.usize_below(10);
+                let xr = crate::sched::spawn(async move {
+                    let mut got = 0usize;
+                    loop {
+                        let r = if cancels_left > 0 {
+                            match CancelAt::new(rx_bx.recv_any(), 1 + crng.below(5) as u32).await {
+                                Some(r) => r,
+                                None => {
+                                    cancels_left -= 1;
+                                    tokio::task::yield_now().await;
+                                    continue;
+                                }
+                            }
+                        } else {
+                            rx_bx.recv_any().await
+                        };
+                        match r {
+                            Ok(Some(Received::Chunks)) => loop {
+                                match rx_bx.recv_chunk().await {
+                                    Ok(Some(_)) => {}
+                                    _ => break,
+                                }
+                            },
+                            Ok(Some(_)) => {}
+                            _ => break,
+                        }
+                        got += 1;
+                        crate::simnet::bump_progress();
+                    }
+                    got
+                });
+                settle().await;
+                net.set_starved(Dir::BA, false);
+                settle().await;
+                if !xs.is_finished() {
+                    pending.push(format!("port X A>B sends ({n} x {len} bytes; the receiver consumed everything, partly with receive calls dropped after a few polls while its endpoint's event queue was full)"));
+                }
+                if !flood.is_finished() {
+                    pending.push("port Z B>A flood sends".into());
+                }
+                drop((xr, za));
+            }
             _ => {
                 // exhaust-then-cancel
                 let ((tx_a, _rx_a), (_tx_b, rx_b)) = open_port(&a.client, &mut b.listener).await?;
@@ -237,7 +307,7 @@ pub fn run_one(run: u64, seed: u64) -> RunOut {
         }
         wire_violations_to(&mut out, &net, "C03", &replay);
         wire_stats_to(&mut out, &net);
-        out.count(["connect_leftover_runs", "port_blocking_runs", "exhaust_cancel_runs"][variant as usize], 1);
+        out.count(["connect_leftover_runs", "port_blocking_runs", "exhaust_cancel_runs", "recv_cancel_under_pressure_runs"][variant as usize], 1);
         let mut h = Fnv::new();
         h.add_str(&cfg_class(&cfg_a));
         h.add_str(&cfg_class(&cfg_b));
